@@ -425,7 +425,7 @@ func (ex *Exec) callSync(g *G, fnv Value, args []Value) Value {
 			panic("callSync: stack underflow")
 		}
 		ex.steps++
-		if ex.steps > ex.E.Cfg.MaxSteps {
+		if ex.steps > ex.E.Cfg.MaxSteps && ex.steps > ex.maxSteps {
 			panic(pathEnd{StInconclusive, "step budget exceeded"})
 		}
 		ex.step(g, fr)
